@@ -549,6 +549,19 @@ def special_cases(ctx):
                         mode='target_values', max_distance=rng.choice([1.0, 1.5, 2.0, 3.0]),
                         chunks=[compositions_random(rng, h, 'any'), compositions_random(rng, w, 'small')],
                         scheduler='threads', only=ONLY[i % 3]))
+    # 0 requested as a target on a raster that is mostly zeros: whole blocks (chunk + halo) hold nothing but zeros, and with
+    # max_distance under half a cell there is no halo at all
+    for i in range(2):
+        h, w = rng.randint(6, 9), rng.randint(6, 9)
+        g = [[0] * w for _ in range(h)]
+        for _ in range(rng.randint(1, 2)):
+            g[rng.randrange(h)][rng.randrange(w)] = rng.randint(1, 9)
+        out.append(dict(fn='dask', layout='mostly-zeros-zero-is-target', metric='EUCLIDEAN',
+                        data=[[float(v) for v in row] for row in g], dtype=rng.choice(['float64', 'int32', 'uint8']),
+                        xs=list(range(w)), ys=list(range(h)), cdtype='float64', ykind='asc', xkind='asc',
+                        tv=[0.0] if i == 0 else [0.0, 5.0], mode='target_values', max_distance=[0.25, 1.0][i],
+                        chunks=[compositions_random(rng, h, 'small'), compositions_random(rng, w, 'small')],
+                        scheduler='threads', only=ONLY[i + 1]))
     # integer raster AND integer coordinates (np.arange, as in the docstrings): the NaN halo is not representable in either
     h, w = rng.randint(4, 7), rng.randint(5, 8)
     g = c06.gen_layout(rng, h, w, 'sparse')
@@ -728,7 +741,7 @@ def check_edges(ctx, cases, pool):
 
 
 def run(ctx):
-    n = 14 if ctx.quick() else 300
+    n = 12 if ctx.quick() else 300
     cases = gen_cases(ctx, n)
     suspects = model_search(ctx, 1500 if ctx.quick() else 30000)
     for s in suspects[:6]:
